@@ -6,6 +6,7 @@ import (
 	"io"
 	"math"
 	"reflect"
+	"sync/atomic"
 	"time"
 
 	"github.com/golang/geo/r3"
@@ -71,9 +72,17 @@ func c09StateDiff(a, b reflect.Value, path string, skip map[string]bool) string 
 			}
 		}
 	case reflect.Struct:
+		known := c09KnownFields[a.Type().String()]
 		for i := 0; i < a.NumField(); i++ {
 			name := a.Type().Field(i).Name
 			if skip[name] {
+				continue
+			}
+			if known != nil && !known[name] {
+				// a field that does not exist on the pinned tree: whether it is part of the value or a
+				// derived cache cannot be known here, so it is left to the behavioural comparisons
+				// (query panel, re-encoding, encode-after-mutation histories) and only counted
+				c09UnknownFields.Add(1)
 				continue
 			}
 			if d := c09StateDiff(a.Field(i), b.Field(i), path+"."+name, skip); d != "" {
@@ -93,6 +102,22 @@ func c09StateDiff(a, b reflect.Value, path string, skip map[string]bool) string 
 	}
 	return ""
 }
+
+// c09KnownFields lists, per type, the fields that make up the encodable value on the pinned tree.
+var c09KnownFields = map[string]map[string]bool{
+	"s2.Loop":     {"vertices": true, "originInside": true, "depth": true, "bound": true, "subregionBound": true, "index": true},
+	"s2.Polygon":  {"loops": true, "index": true, "hasHoles": true, "numVertices": true, "numEdges": true, "bound": true, "subregionBound": true, "cumulativeEdges": true},
+	"s2.Cap":      {"center": true, "radius": true},
+	"s2.Rect":     {"Lat": true, "Lng": true},
+	"s2.Cell":     {"face": true, "level": true, "orientation": true, "id": true, "uv": true},
+	"s2.Point":    {"Vector": true},
+	"r3.Vector":   {"X": true, "Y": true, "Z": true},
+	"r1.Interval": {"Lo": true, "Hi": true},
+	"s1.Interval": {"Lo": true, "Hi": true},
+	"s2.LatLng":   {"Lat": true, "Lng": true},
+}
+
+var c09UnknownFields atomic.Int64
 
 func c09Diff(a, b any, skip ...string) string {
 	m := map[string]bool{}
@@ -250,6 +275,7 @@ type c09Stats struct {
 	invalid              int64
 	buildPanics          int64
 	subBoundDiff         int64
+	histories            int64
 	distinct             *c09Distinct
 }
 
@@ -259,6 +285,7 @@ func (s *c09Stats) flush(c *core.Ctx, sub string) {
 	c.Count(sub+"/offcentre_entries", s.offCentre)
 	c.Count(sub+"/loops_with_encoded_bound", s.boundEncoded)
 	c.Count(sub+"/query_panels_run", s.panels)
+	c.Count(sub+"/encode_invert_encode_histories", s.histories)
 	c.Count(sub+"/inputs_not_valid_polygons(state+bytes compared only)", s.invalid)
 	c.Count(sub+"/inputs_whose_construction_panicked(skipped)", s.buildPanics)
 	nl, nv := int64(0), int64(0)
@@ -284,6 +311,7 @@ func (s *c09Stats) add(o *c09Stats) {
 	s.invalid += o.invalid
 	s.buildPanics += o.buildPanics
 	s.subBoundDiff += o.subBoundDiff
+	s.histories += o.histories
 	for i := range s.levels {
 		s.levels[i] += o.levels[i]
 		s.vertLevels[i] += o.vertLevels[i]
@@ -514,6 +542,54 @@ func c09RoundTripPolygon(c *core.Ctx, sub string, idx []int, p *s2.Polygon, prob
 				}
 				if l.RectBound() != m.RectBound() || l.Contains(l) != m.Contains(l) || l.Contains(m) != l.Contains(l) {
 					c.Violate(sub, "wrong-answer", "Loop decode: bound or Contains differs", idx, detail())
+					return
+				}
+			}
+		}
+		// histories: a value that has already been encoded is modified and encoded again; the second
+		// encoding must describe the value as it is now (an encoder-side cache that survives the
+		// modification would describe the old one)
+		if valid && p.NumLoops() > 0 && !p.IsFull() {
+			st.histories++
+			for step := 1; step <= 2; step++ {
+				p.Invert()
+				hb, err := c09Enc(p.Encode)
+				if err != nil {
+					c.Violate(sub, "wrong-answer", "Polygon.Encode returns an error after Invert", idx, detail())
+					return
+				}
+				h := new(s2.Polygon)
+				if err := h.Decode(bytes.NewReader(hb)); err != nil {
+					c.Violate(sub, "wrong-answer", "Polygon.Decode rejects the encoding made after encode; Invert", idx, detail())
+					return
+				}
+				if d := c09Diff(p, h); d != "" {
+					c.Violate(sub, "wrong-answer", fmt.Sprintf("Polygon encoded, inverted (%dx) and encoded again: the decoded value differs from the current value at %s", step, d), idx, detail())
+					return
+				}
+				if pa, ha := c09Panel(p, probes, cells), c09Panel(h, probes, cells); pa != ha {
+					c.Violate(sub, "wrong-answer", fmt.Sprintf("Polygon encoded, inverted (%dx) and encoded again: the decoded value answers the query panel differently from the current value", step), idx, detail())
+					return
+				}
+			}
+			// single loops: encode, Invert, encode
+			for k := 0; k < p.NumLoops() && k < 3; k++ {
+				l := s2.LoopFromPoints(append([]s2.Point(nil), p.Loop(k).Vertices()...))
+				if l.NumVertices() < 3 {
+					continue
+				}
+				if _, err := c09Enc(l.Encode); err != nil {
+					continue
+				}
+				l.Invert()
+				lb, _ := c09Enc(l.Encode)
+				m := new(s2.Loop)
+				if err := m.Decode(bytes.NewReader(lb)); err != nil {
+					c.Violate(sub, "wrong-answer", "Loop.Decode rejects the encoding made after encode; Invert", idx, detail())
+					return
+				}
+				if d := c09Diff(l, m); d != "" {
+					c.Violate(sub, "wrong-answer", "Loop encoded, inverted and encoded again: the decoded value differs from the current value at "+d, idx, detail())
 					return
 				}
 			}
